@@ -430,6 +430,9 @@ func (e *Exec) vpCall(caller *frame, fn *ssa.Function, args []Value) Value {
 		return nil
 	case "Now":
 		return e.now()
+	case "FreezeClock":
+		e.clockFrozen = args[0].(*Term).k != 0
+		return nil
 	}
 	e.unsupported("vp." + fn.Name())
 	return nil
@@ -437,7 +440,10 @@ func (e *Exec) vpCall(caller *frame, fn *ssa.Function, args []Value) Value {
 
 // now models a monotone clock: each reading is >= the previous one.
 func (e *Exec) now() *Term {
-	t := e.drawScalar("Int64", 64)
+	if e.clockFrozen && e.clock != nil {
+		return e.clock
+	}
+	t := e.freshVar("clock", 64)
 	tc := e.tc
 	// keep it in a sane range so that Unix seconds fit int32 arithmetic checks are meaningful
 	e.Assume(tc.Cmp(OpSle, tc.BV(0, 64), t))
